@@ -116,22 +116,29 @@ func roPs(codec, t string, v int) []byte {
 	return append(append([]byte{}, b...), byte(0x80|v))
 }
 
-func roNalHdr(codec, t string) []byte {
+// roNalHdr: the NAL header of an abstract unit kind.  A kind stands for several concrete NAL unit types; which
+// one a unit gets depends on its id, so that over the scenarios every type of the kind occurs (H.265 slices of
+// sub-layer non-reference / reference, TSA, STSA, RADL, RASL pictures = types 0..9; H.265 key pictures IDR_W_RADL,
+// IDR_N_LP, CRA = 19, 20, 21; H.264 non-IDR slices with every nal_ref_idc).
+func roNalHdr(codec, t string, id int) []byte {
+	if id < 0 {
+		id = -id
+	}
 	if codec == "avc" {
 		switch t {
 		case "idr":
-			return []byte{0x65}
+			return []byte{[]byte{0x65, 0x25, 0x45}[id%3]}
 		case "slice":
-			return []byte{0x41}
+			return []byte{[]byte{0x41, 0x01, 0x21, 0x61}[id%4]}
 		case "sei":
 			return []byte{0x06}
 		}
 	} else {
 		switch t {
 		case "idr":
-			return []byte{0x26, 0x01}
+			return []byte{[]byte{19, 20, 21}[id%3] << 1, 0x01}
 		case "slice":
-			return []byte{0x02, 0x01}
+			return []byte{byte(id%10) << 1, 0x01}
 		case "sei":
 			return []byte{0x4e, 0x01}
 		}
@@ -149,7 +156,7 @@ func roNalBytes(codec string, u roNal) []byte {
 	case "sps", "pps", "vps":
 		return roPs(codec, u.T, u.V)
 	}
-	h := roNalHdr(codec, u.T)
+	h := roNalHdr(codec, u.T, u.Id)
 	n := u.N
 	if n < len(h) {
 		n = len(h)
